@@ -855,6 +855,8 @@ fn parse_struct_literal(
             break;
         }
 
+        let start_idx = p.token_idx;
+
         let field_m = p.start();
         let _guard = p.expected_syntax_name("field name");
         p.expect_with_no_skip(TokenKind::Ident);
@@ -879,6 +881,12 @@ fn parse_struct_literal(
 
         if !p.at(TokenKind::RBrace) {
             p.expect_with_no_skip(TokenKind::Comma);
+        }
+
+        if p.token_idx == start_idx {
+            // nothing was consumed (the next token is in the recovery set),
+            // so going around again would never end
+            break;
         }
     }
     p.expect_with_recovery_set(TokenKind::RBrace, recovery_set);
@@ -988,6 +996,8 @@ fn parse_array_literal(
             break;
         }
 
+        let start_idx = p.token_idx;
+
         if let Some(item) = parse_expr_with_recovery_set(p, "array item", recovery_set) {
             item.precede(p).complete(p, NodeKind::ArrayItem);
         }
@@ -998,6 +1008,12 @@ fn parse_array_literal(
 
         if !p.at(TokenKind::RBrack) && !p.at(TokenKind::RBrace) {
             p.expect_with_no_skip(TokenKind::Comma);
+        }
+
+        if p.token_idx == start_idx {
+            // nothing was consumed (the next token is in the recovery set),
+            // so going around again would never end
+            break;
         }
     }
     p.expect_with_recovery_set_no_default(TokenKind::RBrack, DEFAULT_NO_BRACES);
